@@ -13,7 +13,6 @@ import (
 	"errors"
 	"fmt"
 	"io"
-	"net"
 	"os"
 	"strings"
 	"time"
@@ -34,7 +33,6 @@ type scriptStream struct {
 	wake        chan struct{}
 	fin         bool
 	rerr        error
-	dlFirst     bool // deadline is looked at before buffered data (quic-go's order); else after
 	finWithData bool // the Read that returns the last bytes also returns io.EOF
 	caps        []int64
 	capIdx      int
@@ -88,7 +86,12 @@ func (s *scriptStream) Read(p []byte) (int, error) {
 	hysim.Yield("c17.stream.Read")
 	s.reads++
 	for {
-		if s.dlFirst && s.expired {
+		// Like quic-go's receive stream, net.Conn and net.Pipe: once the deadline has passed,
+		// every Read fails until the deadline is changed, whether or not data is buffered.
+		// (A fake that handed out data after a deadline error made net/http stitch the half
+		// line read before the error to the bytes after it: bufio.ReadLine swallows an error
+		// that comes with a partial line. No real HyStream behaves like that.)
+		if s.expired {
 			return s.deadlineErr()
 		}
 		if len(s.buf) > 0 {
@@ -125,9 +128,6 @@ func (s *scriptStream) Read(p []byte) (int, error) {
 			s.eofSeen = true
 			s.x.Ev("stream Read -> EOF")
 			return 0, io.EOF
-		}
-		if s.expired {
-			return s.deadlineErr()
 		}
 		w := s.wake
 		<-w
@@ -462,7 +462,6 @@ func genTCP(r *hysim.Rand, tier string) *hysim.Script {
 	sc.Cfg["ah"] = int64(r.Pick(0, 0, 0, 0, 0, 1, 1, 2, 2, 3, 3, 4, 5))
 	sc.Cfg["ap"] = int64(r.Intn(len(portTable)))
 	sc.Cfg["pf"] = int64(r.Pick(0, 0, 0, 0, 0, 0, 0, 1, 1, 1, 2, 3, 4, 4, 5, 6, 6, 7))
-	sc.Cfg["dl_first"] = int64(r.Pick(0, 1))
 	sc.Cfg["end"] = int64(r.Pick(0, 0, 0, 1, 2, 2, 3))
 	sc.Cfg["lead_ms"] = r.Pick64(0, 0, 0, 1, T/2)
 	yieldCfg(r, sc, T*1000/2)
@@ -653,7 +652,7 @@ func execTCP(x *hysim.Run) {
 	sn := &Sniffer{Timeout: tmo, RewriteDomain: rewrite, TCPPorts: filter, UDPPorts: portFilter(5, 0)}
 	eligible := eligibleByRule(tgt, rewrite, filter)
 	endMode := sc.Get("end", 0)
-	st := &scriptStream{x: x, wake: make(chan struct{}), dlFirst: sc.Get("dl_first", 0) == 1, finWithData: endMode == 1}
+	st := &scriptStream{x: x, wake: make(chan struct{}), finWithData: endMode == 1}
 	for _, op := range sc.Ops {
 		if op.K == "cap" {
 			st.caps = op.A
@@ -795,12 +794,11 @@ func execTCP(x *hysim.Run) {
 
 	// ---- (b) destination
 	if !panicked {
-		// TLS: the whole first record as declared and the name must have been handed over.
-		// HTTP: the Host line including its terminator; whether a parser insists on seeing the
-		// blank line as well is its own business (net/http accepts a block that ends in a bare
-		// CR at end of stream), the name is "actually present" either way.
+		// "truncated input leaves the destination untouched": the bytes handed to the sniffer must
+		// reach past the name and past the first framing unit as the client declared it (HTTP
+		// header block incl. the blank line / first TLS record).
 		need := meta.unitEnd
-		if meta.hostEnd > need || meta.kind == "http" {
+		if meta.hostEnd > need {
 			need = meta.hostEnd
 		}
 		complete := meta.expHost != "" && len(st.handed) >= need
@@ -882,5 +880,7 @@ func execTCP(x *hysim.Run) {
 			x.Probe("sniff-outlived-its-timeout")
 		}
 	}
-	_ = net.IPv4len
+	if al := x.WaitTasks(time.Second); len(al) != 0 {
+		hysim.HarnessBug("client task still alive at the end of the run: %v", al)
+	}
 }
